@@ -97,6 +97,10 @@ func verifHarnessC02Activate() {
 		assert("unchanged-on-error", deepEq(k.secrets, pre))
 		assert("gen-unchanged-on-error", k.gen == preGen)
 		assert("error-has-cause", or(not(precond), verifFaulted()))
+		// a missing secret or version is reported in the not-found class (the server maps exactly that class to 404)
+		if verifNameOK(name) && ver != 0 && !verifFaulted() {
+			assert("missing-secret-or-version-is-not-found", errors.Is(err, ErrNotFound))
+		}
 		reach("end-error")
 		return
 	}
@@ -134,6 +138,15 @@ func verifHarnessC02DeleteVersion() {
 		assert("unchanged-on-error", deepEq(k.secrets, pre))
 		assert("gen-unchanged-on-error", k.gen == preGen)
 		assert("error-has-cause", or(not(precond), verifFaulted()))
+		if !hasConfigPrefix(name) && ver != 0 && !verifFaulted() {
+			missing := ps == nil
+			if ps != nil {
+				missing = not(mapHas(ps.Versions, ver))
+			}
+			if missing {
+				assert("missing-secret-or-version-is-not-found", errors.Is(err, ErrNotFound))
+			}
+		}
 		reach("end-error")
 		return
 	}
